@@ -151,6 +151,7 @@ class GenRef(object):
         self.kind = kind
         self.gen = gen
         self.pos = 0
+        self.slack = 0
         self.pending = None     # value shown by peek since the last consumption
         self.seen = set()       # values handed out so far (next results, values consumed by new)
 
@@ -170,6 +171,21 @@ class GenRef(object):
             return log[i] if i < len(log) else MISSING
         return None
 
+    # The number of generator values a creation call consumes is only fixed for the ids it defaults: whether an id
+    # attribute that receives an explicit value also draws (and discards) a generator value is not part of the
+    # statement.  The reference therefore keeps a lower bound *pos* and a *slack* of values that may or may not have
+    # been consumed, and collapses it at the next observation.
+    def _candidates(self):
+        return [(k, self.value_at(self.pos + k)) for k in range(getattr(self, 'slack', 0) + 1)]
+
+    def _collapse(self, v):
+        for k, exp in self._candidates():
+            if exp is not None and v == exp:
+                self.pos += k
+                self.slack = 0
+                return True
+        return False
+
     def peek(self, v):
         '''Judge the value a peek returned; -> list of (kind, message, expected)'''
         out = []
@@ -179,7 +195,7 @@ class GenRef(object):
         elif self.pending is not None and v != self.pending:
             out.append(('peek:advanced', 'two peeks with nothing handed out in between returned %r and then %r' %
                         (self.pending, v), self.pending))
-        elif exp is not None and v != exp:
+        elif exp is not None and not self._collapse(v):
             out.append(('peek:value', 'peek returned %r, the generator\'s value number %d is %r' % (v, self.pos + 1, exp), exp))
         elif v in self.seen:
             out.append(('peek:stale', 'peek returned %r which was already handed out' % (v,), 'a fresh value'))
@@ -194,13 +210,14 @@ class GenRef(object):
         elif self.pending is not None and v != self.pending:
             out.append(('next:differs-from-peek', 'peek showed %r but the following next returned %r' % (self.pending, v),
                         self.pending))
-        elif exp is not None and v != exp:
+        elif exp is not None and not self._collapse(v):
             out.append(('next:value', 'value number %d handed out is %r, expected %r%s' %
                         (self.pos + 1, v, exp, ' (the integer generator yields 1, 2, 3, ...)' if self.kind == 'int' else ''), exp))
         elif v in self.seen:
             out.append(('next:repeated', 'next returned %r a second time' % (v,), 'a fresh value'))
         self.seen.add(v)
         self.pos += 1
+        self.slack = 0
         self.pending = None
         return out
 
@@ -208,7 +225,8 @@ class GenRef(object):
         '''A creation call with n non-referential id attributes of which *defaulted* (list of values read back) were not
         overridden.  -> problems; advances the reference.'''
         out = []
-        vals = [self.value_at(self.pos + j) for j in range(n_id_attrs)]
+        slack = getattr(self, 'slack', 0)
+        window = [self.value_at(self.pos + j) for j in range(slack + n_id_attrs)]
         for d in defaulted:
             if is_null_id(d):
                 out.append(('new:null-id', 'a defaulted unique id is the null id %r' % (d,), 'a non-null id'))
@@ -220,22 +238,30 @@ class GenRef(object):
                     out.append(('new:repeated-id', 'defaulted id %r was already handed out in this metamodel' % (d,),
                                 'a fresh id'))
                     break
+        last = -1
         if not out and self.exact:
             for d in defaulted:
-                if d not in vals:
+                if d not in window:
                     out.append(('new:id-not-from-generator',
                                 'defaulted id %r is not among the values %r the metamodel\'s generator hands out next '
-                                '(values number %d..%d)' % (d, vals, self.pos + 1, self.pos + n_id_attrs), vals))
+                                '(values number %d..%d)' % (d, window, self.pos + 1, self.pos + len(window)), window))
                     break
+                last = max(last, window.index(d))
         if not out and not self.exact and self.pending is not None and n_id_attrs and len(defaulted) == n_id_attrs \
            and self.pending not in defaulted:
             out.append(('new:id-differs-from-peek', 'peek showed %r but the ids defaulted next are %r' %
                         (self.pending, defaulted), self.pending))
-        self.seen.update(v for v in vals if v is not None and v != MISSING)
         self.seen.update(defaulted)
-        self.pos += n_id_attrs
-        if n_id_attrs:
+        hi = self.pos + slack + n_id_attrs
+        lo = max(self.pos + len(defaulted), self.pos + last + 1)
+        if self.exact:
+            self.seen.update(v for v in window[:max(0, lo - self.pos)] if v is not None and v != MISSING)
+        self.pos = lo
+        self.slack = max(0, hi - lo)
+        if defaulted:
             self.pending = None
+        elif n_id_attrs and self.slack:
+            self.pending = None      # a peeked value may or may not have been drawn by an overridden id attribute
         return out
 
 
@@ -544,14 +570,15 @@ class GenModel(explorer.Model):
 
     def enabled(self, w):
         ops = [['peek']]
-        if w.ref.pos + 1 <= self.cap:
+        hi = w.ref.pos + getattr(w.ref, 'slack', 0)     # upper bound of values drawn so far
+        if hi + 1 <= self.cap:
             ops += [['next'], ['pynext']]
         for name, (cls, explicit) in B_NEW.items():
             n_ids = sum(1 for _, t in dict(B_CLASSES)[cls] if t.upper() == 'UNIQUE_ID')
             if n_ids == 0:
                 if w.made[cls] < 2:
                     ops.append([name])
-            elif w.ref.pos + n_ids <= self.cap:
+            elif hi + n_ids <= self.cap:
                 ops.append([name])
         return ops
 
@@ -604,7 +631,7 @@ class GenModel(explorer.Model):
     def canon(self, w):
         mask = tuple(min(w.made[k], 2) if k == 'K0' else bool(w.made[k]) for k, _ in B_CLASSES)
         proxy = getattr(w.gen, '_current', None) if self.kind in ('int', 'user') else None
-        return (w.ref.pos, w.ref.pending is not None, mask, w.last, bool(w.explicit), proxy)
+        return (w.ref.pos, getattr(w.ref, 'slack', 0), w.ref.pending is not None, mask, w.last, bool(w.explicit), proxy)
 
 
 def run_history(sub, task):
